@@ -52,6 +52,60 @@ theorem reservation_exact (s s' : Sys) (o : Obs) (ok : Bool)
       subst h1 h2
       simp
 
+/-! ### F14: a second admission in the same pass is refused when the machines do not cover both -/
+
+theorem double_admission_refused (c : Cluster) (mx d1 d2 : Nat) (prov : Int)
+    (hp : (c.ingest.length : Int) ≤ prov) (hd : c.available.length < d1 + d2) :
+    c.checkIngestCapacity d2 mx (prov + d1) = false := by
+  unfold Cluster.checkIngestCapacity
+  by_cases a1 : d2 > mx
+  · rw [if_pos a1]
+  · rw [if_neg a1]
+    have a0 : ¬ (prov + (d1 : Int) - (c.ingest.length : Int) < 0) := by omega
+    simp only [a0, if_false]
+    rw [if_neg]
+    intro h
+    have := h.1
+    omega
+
+theorem double_admission_refused_sys (s s1 : Sys) (o1 o2 : Obs)
+    (h1 : s.checkIngestCapacity o1 = .ok (s1, true))
+    (hp : (s.cl.ingest.length : Int) ≤ s.provIngest)
+    (hd : s.cl.available.length < o1.ingestDemand + o2.ingestDemand) :
+    s1.cl.checkIngestCapacity o2.ingestDemand s1.maxIngest s1.provIngest = false ∧
+    ∀ s2 b, s1.checkIngestCapacity o2 = .ok (s2, b) → b = false ∧ s2 = s1 := by
+  have hs1 : s1 = { s with provIngest := s.provIngest + o1.ingestDemand } := by
+    unfold checkIngestCapacity at h1
+    split at h1
+    · cases h1
+    · rename_i cap _
+      split at h1
+      · split at h1
+        · injection h1 with h1
+          injection h1 with e1 e2
+          subst e2
+          simp only [if_true] at e1
+          exact e1.symm
+        · injection h1 with h1
+          injection h1 with e1 e2
+          cases e2
+      · injection h1 with h1
+        injection h1 with e1 e2
+        cases e2
+  have hcl : s1.cl.checkIngestCapacity o2.ingestDemand s1.maxIngest s1.provIngest = false := by
+    rw [hs1]
+    exact double_admission_refused s.cl s.maxIngest o1.ingestDemand o2.ingestDemand s.provIngest hp hd
+  refine ⟨hcl, ?_⟩
+  intro s2 b h2
+  unfold checkIngestCapacity at h2
+  rw [hcl] at h2
+  split at h2
+  · cases h2
+  · simp only [Bool.false_eq_true, if_false] at h2
+    injection h2 with h2
+    injection h2 with e1 e2
+    exact ⟨e2.symm, e1.symm⟩
+
 theorem reservation_returned (s : Sys) (now : Time) (oid : Oid) (o : Obs) (tl : Int)
     (ho : s.obs? oid = some o) (hfin : o.status = .finished ∨ (o.status = .running ∧ tl ≤ 0)) :
     (s.allocIngestIter now oid tl).2.2 = .done ∧
